@@ -85,7 +85,7 @@ def _seg_int(obs, a, b, r, k, thin, adaptive=False):
     return psi, grad
 
 
-def near_field(topo, current, k, obs, ground=False, srm=0.0, adaptive=False):
+def near_field(topo, current, k, obs, ground=False, srm=0.0, adaptive=False, scales=False):
     """E (V/m) and H (A/m) at obs of the pulse currents and their charges; over ideal ground every pulse
     that is not grounded also radiates through its mirror image with opposite current"""
     eta = 376.730313668
@@ -93,6 +93,7 @@ def near_field(topo, current, k, obs, ground=False, srm=0.0, adaptive=False):
     mconst = eta * lam / (8 * math.pi ** 2)          # 1 / (4 pi omega eps0)
     E = np.zeros(3, complex)
     H = np.zeros(3, complex)
+    sE = sH = 0.0
     obs = np.asarray(obs, float)
     for p in topo.pulses:
         I = current[p.idx]
@@ -108,8 +109,16 @@ def near_field(topo, current, k, obs, ground=False, srm=0.0, adaptive=False):
             pu, gu = _seg_int(obs, q.pt, (q.pt + q.e1) / 2, q.r1, k, th1, adaptive)
             _, g0 = _seg_int(obs, q.e0, q.pt, q.r0, k, th0, adaptive)
             _, g1 = _seg_int(obs, q.pt, q.e1, q.r1, k, th1, adaptive)
-            E += -1j * mconst * I * sg * (k * k * (t0 * pv + t1 * pu) - (g1 / L1 - g0 / L0))
-            H += I * sg * (np.cross(gv, t0) + np.cross(gu, t1)) / (4 * math.pi)
+            dE = -1j * mconst * I * sg * (k * k * (t0 * pv + t1 * pu) - (g1 / L1 - g0 / L0))
+            dH = I * sg * (np.cross(gv, t0) + np.cross(gu, t1)) / (4 * math.pi)
+            E += dE
+            H += dH
+            sE += float(np.linalg.norm(dE))
+            sH += float(np.linalg.norm(dH))
+    if scales:
+        # sums of the magnitudes of the contributions of the individual pulses (and images): the scale against
+        # which cancellation between pulses has to be judged
+        return E, H, sE, sH
     return E, H
 
 
